@@ -694,6 +694,34 @@ example : (observe (copyAs repaired 19 1 noOverride demo)).bonds = [] ∧
     (observe (copyAs repaired 19 1 noOverride demo)).arrays = [] := by decide
 example : (observe (copyAs repaired 19 6 { noOverride with fills := [[0, 0], [5], [1]] } demo)).arrays = [[0, 0], [5], [1]] ∧
     (observe (copyAs repaired 19 6 noOverride demo)).bonds = (observe demo).bonds := by decide
+
+/-- a multigraph: two bonds between atoms 5 and 8 (opposite orientations, different fields), a bond from atom 10 to
+itself, atom 20 without bonds, and an attachment atom 30 bonded once.  The theorems above assume nothing about the bond
+graph being simple; these instances show the routes on such a source. -/
+def multi : MolO :=
+  { id := 0, cls := 4, scalars := [0, 0, 1], attrib := { id := 1, ents := .nil }, atomsId := 2,
+    atoms := [{ id := 5, fields := [6], attrib := { id := 6, ents := .nil }, parent := some 0 },
+              { id := 8, fields := [6], attrib := { id := 9, ents := .nil }, parent := some 0 },
+              { id := 10, fields := [8], attrib := { id := 11, ents := .nil }, parent := some 0 },
+              { id := 20, fields := [1], attrib := { id := 21, ents := .nil }, parent := some 0 },
+              { id := 30, fields := [0], attrib := { id := 31, ents := .nil }, parent := some 0 }],
+    bondsId := 3,
+    bonds := [{ id := 40, a1 := 5, a2 := 8, fields := [1], attrib := { id := 41, ents := .nil }, parent := some 0 },
+              { id := 42, a1 := 8, a2 := 5, fields := [2], attrib := { id := 43, ents := .scalar 1 1 .nil }, parent := some 0 },
+              { id := 44, a1 := 10, a2 := 10, fields := [3], attrib := { id := 45, ents := .nil }, parent := some 0 },
+              { id := 46, a1 := 8, a2 := 30, fields := [1], attrib := { id := 47, ents := .nil }, parent := some 0 }],
+    arrays := [{ id := 50, data := [1, 2, 3, 4, 5, 6, 7, 8, 9, 10, 11, 12, 13, 14, 15] }] }
+
+theorem multi_wf : WF multi := by refine ⟨?_, ?_, ?_⟩ <;> decide
+
+example : observe (deepCopy repaired 60 multi) = observe multi := deepCopy_faithful multi_wf
+example : (observe (concatN repaired 200 4 [multi, deepCopy repaired 60 multi])).bonds.map (fun b => (b.e1, b.e2, b.fields)) =
+    [(0, 1, [1]), (1, 0, [2]), (2, 2, [3]), (1, 4, [1]), (5, 6, [1]), (6, 5, [2]), (7, 7, [3]), (6, 9, [1])] := by decide
+/-- join at the attachment atoms (position 4 in both): both parallel bonds and the self bond of each fragment survive -/
+example : (observe (join repaired 200 4 multi (deepCopy repaired 60 multi) 4 4 [0, 0, 1] [1]
+    [0, 0, 0, 0, 0, 0, 0, 0, 0, 0, 0, 0, 0, 0, 0, 0, 0, 0, 0, 0, 0, 0, 0, 0])).bonds.map (fun b => (b.e1, b.e2, b.fields)) =
+    [(0, 1, [1]), (1, 0, [2]), (2, 2, [3]), (4, 5, [1]), (5, 4, [2]), (6, 6, [3]), (1, 5, [1])] := by decide
+
 /-- a mutation of the copy's nested attribute container changes the copy and not the source -/
 example :
     let c := deepCopy repaired 19 demo
